@@ -48,18 +48,18 @@ TInitialPdf ==
 Delta ==
     CASE env.upd = "user"    -> [m \in 1..env.d |-> Ev.out[m] - Ev.in[m]]
       [] env.upd = "none"    -> Zero
-      [] env.upd = "uniform" -> UniformDelta(Ev.ru)
+      [] env.upd = "uniform" -> IF env.mag = 0 THEN Zero ELSE UniformDelta(Ev.ru)   \* magnitude 0: no draws at all
       [] env.upd = "gauss"   -> Zero      \* only radius draws equal to one are generated: update is exactly zero
 
 TProp ==
     /\ IsEvent("Prop") /\ pc = "prop"
     /\ Ev.i = ci - 1 /\ Ev.n = env.n
+    /\ env.upd = "uniform" => Len(Ev.ru) = (IF env.mag = 0 THEN 0 ELSE env.d)
+    /\ env.upd \in {"none", "user"} => Len(Ev.ru) = 0
     /\ Propose(Ev.rj, Ev.rk, Ev.w, Delta)
     /\ Ev.j = pick'[1] - 1 /\ Ev.k = pick'[2] - 1                 \* the indexes the code used are the clamped ones
     /\ Ev.out = prop'[ci].x /\ Ev.ok = prop'[ci].ok                  \* the proposal and its domain verdict
     /\ env.upd = "user" => Ev.in = VAdd(st[ci], VMul(Ev.w, VSub(st[pick'[2]], st[pick'[1]])))
-    /\ env.upd = "uniform" => Len(Ev.ru) = env.d
-    /\ env.upd = "none" => Len(Ev.ru) = 0
 
 TEvalPdf ==
     /\ IsEvent("Pdf") /\ pc = "eval" /\ Cands # <<>>
